@@ -12,25 +12,25 @@ package main
 // ones, so "unsat" from it is a proof; "sat" from it is never believed.
 
 import (
+	"fmt"
+	"go/types"
 	"golang.org/x/tools/go/ssa"
 	"os"
 	"regexp"
-	"fmt"
-	"go/types"
 	"strings"
 )
 
 type hyp struct {
-	pre   []Expr
-	qv    QVar
-	qvs   []QVar // all quantified variables (len > 1 for multi-variable hypotheses)
-	body  Expr
-	env   *Env
-	reach string
-	done  map[string]bool
-	strKey bool                      // the single variable is a string (map key)
-	heaps map[string]map[string]bool // quantified variable -> element heaps it indexes directly (nil: unknown)
-	blk   *ssa.BasicBlock            // block in which the hypothesis was assumed (nil: function entry)
+	pre    []Expr
+	qv     QVar
+	qvs    []QVar // all quantified variables (len > 1 for multi-variable hypotheses)
+	body   Expr
+	env    *Env
+	reach  string
+	done   map[string]bool
+	strKey bool                       // the single variable is a string (map key)
+	heaps  map[string]map[string]bool // quantified variable -> element heaps it indexes directly (nil: unknown)
+	blk    *ssa.BasicBlock            // block in which the hypothesis was assumed (nil: function entry)
 }
 
 func hasQuant(s string) bool {
